@@ -287,7 +287,13 @@ def check_operator(op, x, y):
 
 small_int = st.integers(-2, 9)
 integral = st.one_of(small_int, small_int, st.integers(-40, 400), st.sampled_from([0, 1, 2, 10, 16, 36, 23, 31, 100, 255, 65, 97, 128512, 2020, 10 ** 14]))
-any_number = st.one_of(integral, integral, gv.small_numbers, gv.numbers)
+def _representable(n):
+    # host ints beyond 2**53 are not numbers a script can hold (every script number is a double): mixed with a respelled small
+    # number they expose float rounding of the big int, not a spelling difference
+    return float(n) if isinstance(n, int) and not isinstance(n, bool) and abs(n) > 2 ** 53 else n
+
+
+any_number = st.one_of(integral, integral, gv.small_numbers, gv.numbers.map(_representable))
 simple_elem = st.one_of(integral, gv.strings, st.none(), st.booleans())
 simple_arrays = st.lists(simple_elem, max_size=6)
 rows = st.lists(st.fixed_dictionaries({'a': st.one_of(integral, st.integers(0, 3), st.sampled_from(['x', 'y', '1', '1.0', '2', '0', '2.0', 'true', 'null'])), 'b': any_number},
